@@ -15,7 +15,7 @@ from .c15 import items_of
 PROP = "C16"
 RULE = (
     "All strings of length <=5 (quick) / <=6 (thorough) over {a, b, space, \\n, U+3000, \\t} as plain str, as a single run and in every "
-    "2-run layout (formatting changing inside words and inside whitespace runs), columns 1,2,3,5 enumerated; Hypothesis adds "
+    "2-run layout (formatting changing inside words and inside whitespace runs; every fourth string also in colours differing from the usual ones only by value), columns 1,2,3,5 enumerated; Hypothesis adds "
     "longer texts, 9 kinds of whitespace, 1-5 runs and columns 1..8. Oracle: greedy reference wrap on cell lists (words = maximal "
     "non-whitespace runs; a word joins the current line iff len+1+len(word) <= columns; longer words cut into columns-sized pieces) "
     "must equal the result line by line on word cells; each joining space is one ' ' whose attribute items lie between the "
@@ -31,6 +31,9 @@ ASSUMPTIONS = [
 ]
 SHARDS = {"quick": 8, "thorough": 16}
 FMTS = [{"fg": 31}, {"bg": 44, "bold": True}, {}]
+# the same attribute *names* with other values: formatting is a matter of values, and whatever the library remembers from one
+# gap or one call must not show up in another
+FMTS_OTHER_VALUES = [{"fg": 34}, {"bg": 41, "bold": True}, {"fg": 32, "bg": 45}, {"fg": 31, "bg": 41}]
 
 
 def reference(src, columns):
@@ -179,9 +182,9 @@ SYMS = ["a", "b", " ", "\n", "　", "\t"]
 
 def strategy():
     alpha = "abcdefg" + WS + "   " + "世Ｅ́\x7f"  # words may contain double-width, combining and control characters: length counts characters
-    run = st.tuples(gen.text(alpha, 0, 8), st.sampled_from(FMTS + [{"underline": True}, {"fg": 31, "bg": 44}])).map(list)
+    run = st.tuples(gen.text(alpha, 0, 8), st.sampled_from(FMTS + [{"underline": True}, {"fg": 31, "bg": 44}] + FMTS_OTHER_VALUES)).map(list)
     cols = st.lists(st.one_of(st.integers(1, 8), st.integers(1, 8), st.sampled_from([10, 16, 20, 40, 79, 80, 100, 255, 256, 300])), min_size=1, max_size=3, unique=True)
-    long_run = st.tuples(gen.text(alpha, 20, 160), st.sampled_from(FMTS)).map(list)
+    long_run = st.tuples(gen.text(alpha, 20, 160), st.sampled_from(FMTS + FMTS_OTHER_VALUES)).map(list)
     return st.one_of(
         st.fixed_dictionaries({"desc": st.lists(run, min_size=0, max_size=5), "columns": cols, "build": gen.BUILDS, "obs": gen.OBS, "again": st.booleans()}),
         st.fixed_dictionaries({"desc": st.lists(run, min_size=0, max_size=5), "columns": cols, "build": gen.BUILDS, "obs": gen.OBS}),
@@ -214,6 +217,11 @@ def campaign(col, tier, seed, shard, nshards):
             variants = [{"str": s}, {"desc": [[s, FMTS[i % 3]]]}]
             for k in range(1, L):
                 variants.append({"desc": [[s[:k], FMTS[(i + k) % 3]], [s[k:], FMTS[(i + k + 1) % 3]]]})
+            if i % 4 == 1:
+                # every fourth string also in colours that differ from the usual ones only by value
+                variants.append({"desc": [[s, FMTS_OTHER_VALUES[i % 4]]]})
+                for k in range(1, L):
+                    variants.append({"desc": [[s[:k], FMTS_OTHER_VALUES[(i + k) % 4]], [s[k:], FMTS[(i + k) % 3]]]})
             for vi, case in enumerate(variants):
                 if (i + vi) % 5 == 0:
                     case["again"] = True
